@@ -288,8 +288,11 @@ class Interp(object):
         params = [p for p in params if not (isinstance(p, c_ast.Typename) and self.type_name(p.type) == "void")]
         if len(params) != len(args):
             raise TypeError("%s expects %d arguments" % (name, len(params)))
+        env["__types__"] = {}
         for p, a in zip(params, args):
-            env[p.name] = self.convert(a, self.type_name(p.type)) if not isinstance(p.type, c_ast.PtrDecl) else a
+            ptn = "ptr" if isinstance(p.type, c_ast.PtrDecl) else self.type_name(p.type)
+            env[p.name] = self.convert(a, ptn) if ptn != "ptr" else a
+            env["__types__"][p.name] = ptn
         rett = self.type_name(f.decl.type.type)
         try:
             self.exec_stmt(f.body, [env])
@@ -316,6 +319,7 @@ class Interp(object):
             else:
                 v = _UNINIT
             scopes[-1][s.name] = v
+            scopes[-1].setdefault("__types__", {})[s.name] = tn
         elif isinstance(s, c_ast.DeclList):
             for d in s.decls:
                 self.exec_stmt(d, scopes)
@@ -398,18 +402,6 @@ class Interp(object):
             return ArrayLoc(arr, 0)
         raise NotImplementedError("lvalue %r" % (e,))
 
-    def static_type(self, e, scopes):
-        """Type name needed for uint wrap-around of ++/--/+=; resolved from declarations where it matters."""
-        if isinstance(e, c_ast.StructRef):
-            base = self.eval(e.name, scopes) if e.type == "->" else self.lvalue(e.name, scopes).get()
-            s = self.structs[base.typ[7:]]
-            for d in s.decls:
-                if d.name == e.field.name:
-                    return self.type_name(d.type) if not isinstance(d.type, c_ast.PtrDecl) else "ptr"
-        if isinstance(e, c_ast.ID):
-            return self._decl_types.get(e.name)
-        return None
-
     def eval(self, e, scopes):
         if isinstance(e, c_ast.Constant):
             if e.type in ("int", "unsigned int", "long int", "unsigned long int"):
@@ -464,18 +456,35 @@ class Interp(object):
                 raise NotImplementedError("address-of")
             raise NotImplementedError("unary %s" % op)
         if isinstance(e, c_ast.BinaryOp):
-            if e.op == "&&":
+            if e.op in ("&&", "||"):
                 left = self.eval(e.left, scopes)
-                if not self.truth(left):
-                    return 0
-                return 1 if self.truth(self.eval(e.right, scopes)) else 0
-            if e.op == "||":
-                left = self.eval(e.left, scopes)
-                if self.truth(left):
-                    return 1
-                return 1 if self.truth(self.eval(e.right, scopes)) else 0
-            return self.binop(e.op, self.eval(e.left, scopes), self.eval(e.right, scopes),
-                              uint=self._is_uint_expr(e, scopes))
+                if isinstance(left, symx.SymBool) and self.pure(e.right):
+                    # both operands are side-effect free: build one Boolean instead of forking on the short circuit
+                    # (fewer paths, same semantics); a faulting right operand falls back to C's evaluation order
+                    try:
+                        right = self.eval(e.right, scopes)
+                        ok = True
+                    except CMemoryError:
+                        ok = False
+                    if ok:
+                        if not isinstance(right, symx.SymBool):
+                            rt = self.truth(right)
+                            if e.op == "&&":
+                                return left if rt else 0
+                            return 1 if rt else left
+                        return (left & right) if e.op == "&&" else (left | right)
+                lt = self.truth(left)
+                if e.op == "&&":
+                    if not lt:
+                        return 0
+                else:
+                    if lt:
+                        return 1
+                right = self.eval(e.right, scopes)
+                if isinstance(right, symx.SymBool):
+                    return right
+                return 1 if self.truth(right) else 0
+            return self.binop(e.op, self.eval(e.left, scopes), self.eval(e.right, scopes))
         if isinstance(e, c_ast.TernaryOp):
             if self.truth(self.eval(e.cond, scopes)):
                 return self.eval(e.iftrue, scopes)
@@ -503,6 +512,14 @@ class Interp(object):
                 v = self.eval(x, scopes)
             return v
         raise NotImplementedError("expression %r" % (e,))
+
+    def pure(self, e):
+        """No assignment, increment or call inside the expression."""
+        if isinstance(e, (c_ast.Assignment, c_ast.FuncCall)):
+            return False
+        if isinstance(e, c_ast.UnaryOp) and e.op in ("p++", "p--", "++", "--"):
+            return False
+        return all(self.pure(c) for _, c in e.children())
 
     def call_function(self, name, args, scopes):
         if name in self.funcs:
@@ -576,17 +593,10 @@ class Interp(object):
                     return "ptr" if isinstance(d.type, c_ast.PtrDecl) else self.type_name(d.type)
             return None
         if isinstance(e, c_ast.ID):
-            return self._var_type(e.name)
+            for sc in reversed(scopes):
+                if e.name in sc:
+                    return sc.get("__types__", {}).get(e.name)
         return None
-
-    def _var_type(self, name):
-        return self._types.get((self._cur_func(), name))
-
-    def _cur_func(self):
-        return None
-
-    def _is_uint_expr(self, e, scopes):
-        return False
 
     def binop(self, op, a, b, uint=False):
         if isinstance(a, CSize) or isinstance(b, CSize):
